@@ -491,7 +491,8 @@ def gen_field(ch: Chooser, i: int, frozen: bool, cats: list[str], scalar_keys: l
         elif variant == "tokens-choice":
             choices = "({'name': 'ts', 'type': List[int], 'tokens': True}, {'name': 's', 'type': str})"
             ann = "Union[List[int], str]"
-            items = ["[1, 2]", "'a'", "[3]", "'b'", "[-1, 0, 1]"]
+            # ('12' is a string that reads like a token list of the other choice)
+            items = ["[1, 2]", "'a'", "[3]", "'12'", "[-1, 0, 1]"]
             tags.add("tokens")
         elif variant == "nillable-choice":
             choices = "({'name': 'ni', 'type': Optional[int], 'nillable': True}, {'name': 's', 'type': str})"
@@ -550,7 +551,10 @@ def gen_field(ch: Chooser, i: int, frozen: bool, cats: list[str], scalar_keys: l
     if cat == "special":
         # constructs that matter to the code serializer: fields excluded from __init__ and default factories
         # that return something non-empty
-        variant = ch.pick(["list-default-factory", "init-false-attr", "init-false-postinit", "dict-default-factory", "ignore-value", "ignore-required", "ignore-mapping"], f"{name}.variant")
+        variant = ch.pick(["list-default-factory", "init-false-attr", "init-false-postinit", "dict-default-factory", "ignore-value", "ignore-required", "ignore-mapping", "required-none"], f"{name}.variant")
+        if variant == "required-none":
+            # no default at all, and the value is None: not the same thing as a field that defaults to None
+            return FieldSpec(name, "Optional[int]", None, {"type": "'Element'"}, ["None", "5", "0"], cat, [], {"special", "required"})
         if variant == "ignore-value":
             # fields the binding layer ignores are still part of the instance
             return FieldSpec(name, "Optional[int]", "None", {"type": "'Ignore'"}, ["5", "None", "0"], cat, [], {"special", "ignore"})
